@@ -95,4 +95,19 @@ def table : List (Meth × Prog) := [
 
 def progs : Meth → Prog := lookup table
 
+/-- subscriber.go:100-113 `NewSubscriberWithConcurrencyMode`: mode ↦ (mutex constructor, backpressure).
+    This is what `Conc.Shared.noLock` (unsafe ⇒ the no-op mutex) and `Shared.fld .backpressure`
+    (eventually-safe ⇒ Drop = 1) build in. -/
+def modes : List (String × String × Nat) :=
+  [("ConcurrencyModeSafe", "NewMutexWithLock", 0), ("ConcurrencyModeUnsafe", "NewMutexWithoutLock", 0),
+   ("ConcurrencyModeEventuallySafe", "NewMutexWithLock", 1)]
+
+/-- internal/xsync/mutex.go: `MutexWithLock` delegates to a sync.Mutex (:37-61), `MutexWithoutLock`
+    does nothing and its TryLock answers true (:106-124) -/
+def mutexes : List (String × String) := [("MutexWithLock", "sync"), ("MutexWithoutLock", "noop")]
+
+/-- observable.go:303-321 `observableImpl.SubscribeWithContext` -/
+def subscribeWrapper : List String :=
+  ["newSubscriber(s.mode)", "try", "add(subscribe(ctx,sub))", "catch", "error(observable)", "unsubscribe", "return sub"]
+
 end Ro.Kernel.Expected
